@@ -167,6 +167,50 @@ pub fn dispatch(op: &str, a: &[&str]) -> Option<Ans> {
             }
             (ia, if sr == 0 { ok(&s) } else { "err".into() })
         }
+        // kdf_after_failed_final <len> <id> <ctx> <key> <buffered bytes> <bad outlen>: the derivation made right after a STREAMING
+        // generichash on the same thread whose finalisation was refused (output length 0 or > 64) while input was still buffered
+        "kdf_after_failed_final" => {
+            use dryoc::classic::crypto_generichash::*;
+            let len: usize = a[0].parse().unwrap();
+            let (nbuf, bad): (usize, usize) = (a[4].parse().unwrap(), a[5].parse().unwrap());
+            let id = u64::from_le_bytes(arr(&b[1]));
+            let (ctx, key): ([u8; 8], [u8; 32]) = (arr(&b[2]), arr(&b[3]));
+            for keyed in [false, true] {
+                let k = [0x42u8; 32];
+                if let Ok(mut st) = crypto_generichash_init(if keyed { Some(&k[..]) } else { None }, 32) {
+                    crypto_generichash_update(&mut st, &vec![0xC3u8; nbuf]);
+                    let mut out = vec![0u8; bad];
+                    let _ = crypto_generichash_final(st, &mut out);
+                }
+            }
+            let mut sub = vec![0xA5u8; len];
+            let r = crypto_kdf_derive_from_key(&mut sub, id, &ctx, &key);
+            let mut s = vec![0u8; len];
+            let sr = unsafe { so::crypto_kdf_derive_from_key(s.as_mut_ptr(), len, id, ctx.as_ptr() as *const _, key.as_ptr()) };
+            // … and through the object API
+            let mut ia = if r.is_ok() { ok(&sub) } else { "err".into() };
+            if len == 32 {
+                let kk = dryoc::kdf::StackKdf::from_parts(key.into(), ctx.into());
+                if let Ok(v) = kk.derive_subkey_to_vec(id) { if r.is_err() || v != sub { ia = "mismatch Kdf object after a refused finalisation".into(); } }
+            }
+            (ia, if sr == 0 { ok(&s) } else { "err".into() })
+        }
+        // kdf_obj_vec <id> <ctx of ANY length> <key of ANY length>: `Kdf<Vec<u8>, Vec<u8>>` — ByteArray<N> for Vec views the first N
+        // bytes (and asserts len ≥ N): the subkey is the classic function's on the 8 / 32-byte prefixes
+        "kdf_obj_vec" => {
+            let id = u64::from_le_bytes(arr(&b[0]));
+            let (ctxv, keyv) = (b[1].clone(), b[2].clone());
+            let r = std::panic::catch_unwind(std::panic::AssertUnwindSafe(|| {
+                let k: dryoc::kdf::Kdf<Vec<u8>, Vec<u8>> = dryoc::kdf::Kdf::from_parts(keyv.clone(), ctxv.clone());
+                k.derive_subkey_to_vec(id)
+            }));
+            let want = if ctxv.len() >= 8 && keyv.len() >= 32 {
+                let mut s = vec![0u8; 32];
+                let sr = unsafe { so::crypto_kdf_derive_from_key(s.as_mut_ptr(), 32, id, ctxv.as_ptr() as *const _, keyv.as_ptr()) };
+                if sr == 0 { ok(&s) } else { "err".into() }
+            } else { "panic".into() };
+            (match r { Ok(Ok(v)) => ok(&v), Ok(Err(_)) => "err".into(), Err(_) => "panic".into() }, want)
+        }
         // kdf_after <len> <id> <ctx> <key> <prev_len>: the derivation made right after one of prev_len bytes with the same operands
         "kdf_after" => {
             let len: usize = a[0].parse().unwrap();
